@@ -20,8 +20,10 @@ func Shrink(t *testing.T, P Property, p *Plan, v *Violation) *Plan {
 	best.Violation = v
 	budget := 4000
 	deadline := time.Now().Add(40 * time.Second)
+	// expired: no candidate is executed any more; loops stop producing them
+	expired := func() bool { return budget <= 0 || time.Now().After(deadline) }
 	try := func(c *Plan) bool {
-		if budget <= 0 || time.Now().After(deadline) {
+		if expired() {
 			return false
 		}
 		budget--
@@ -48,7 +50,7 @@ func Shrink(t *testing.T, P Property, p *Plan, v *Violation) *Plan {
 		return false
 	}
 
-	for pass := 0; pass < 6; pass++ {
+	for pass := 0; pass < 6 && !expired(); pass++ {
 		progress := false
 
 		// Property-specific simplifications (simpler query, ...).
@@ -56,6 +58,9 @@ func Shrink(t *testing.T, P Property, p *Plan, v *Violation) *Plan {
 			for again := true; again; {
 				again = false
 				for _, c := range sc.ShrinkCandidates(best) {
+					if expired() {
+						break
+					}
 					if try(c) {
 						progress, again = true, true
 						break
@@ -65,6 +70,9 @@ func Shrink(t *testing.T, P Property, p *Plan, v *Violation) *Plan {
 		}
 		// Drop containers.
 		for i := len(best.World.Containers) - 1; i >= 0; i-- {
+			if expired() {
+				break
+			}
 			if len(best.World.Containers) <= 1 && best.Harness == "parselog" {
 				break
 			}
@@ -84,6 +92,9 @@ func Shrink(t *testing.T, P Property, p *Plan, v *Violation) *Plan {
 		}
 		// Drop faults.
 		for i := len(best.Faults) - 1; i >= 0; i-- {
+			if expired() {
+				break
+			}
 			c := best.Clone()
 			c.Faults = append(c.Faults[:i], c.Faults[i+1:]...)
 			if try(c) {
@@ -92,6 +103,9 @@ func Shrink(t *testing.T, P Property, p *Plan, v *Violation) *Plan {
 		}
 		// Drop variants (keep at least one).
 		for i := len(best.Variants) - 1; i >= 0 && len(best.Variants) > 1; i-- {
+			if expired() {
+				break
+			}
 			c := best.Clone()
 			c.Variants = append(c.Variants[:i], c.Variants[i+1:]...)
 			if try(c) {
@@ -102,6 +116,9 @@ func Shrink(t *testing.T, P Property, p *Plan, v *Violation) *Plan {
 		for ci := range best.World.Containers {
 			for chunk := len(best.World.Containers[ci].Log) / 2; chunk >= 1; chunk /= 2 {
 				for start := 0; start < len(best.World.Containers[ci].Log); {
+					if expired() {
+						break
+					}
 					c := best.Clone()
 					log := c.World.Containers[ci].Log
 					end := start + chunk
@@ -120,6 +137,9 @@ func Shrink(t *testing.T, P Property, p *Plan, v *Violation) *Plan {
 		// Drop Docker labels.
 		for ci := range best.World.Containers {
 			for _, k := range sortedKeys(best.World.Containers[ci].Labels) {
+				if expired() {
+					break
+				}
 				c := best.Clone()
 				delete(c.World.Containers[ci].Labels, k)
 				if try(c) {
@@ -130,6 +150,9 @@ func Shrink(t *testing.T, P Property, p *Plan, v *Violation) *Plan {
 		// Shorten messages.
 		for ci := range best.World.Containers {
 			for ri := range best.World.Containers[ci].Log {
+				if expired() {
+					break
+				}
 				msg := best.World.Containers[ci].Log[ri].Msg
 				if len(msg) <= 8 {
 					continue
@@ -148,6 +171,9 @@ func Shrink(t *testing.T, P Property, p *Plan, v *Violation) *Plan {
 		}
 		// Simplify each variant.
 		for vi := range best.Variants {
+			if expired() {
+				break
+			}
 			v := best.Variants[vi]
 			if v.FragMode != "whole" {
 				c := best.Clone()
@@ -174,7 +200,8 @@ func Shrink(t *testing.T, P Property, p *Plan, v *Violation) *Plan {
 			if best.Variants[vi].GateReads {
 				c := best.Clone()
 				c.Variants[vi].GateReads, c.Variants[vi].SchedSeed = false, 0
-				if try(c) {
+				// (a plan that was put under the scheduler to make it replay stays there)
+				if best.Tags["keep_gates"] != "1" && try(c) {
 					progress = true
 				} else if best.Variants[vi].SchedSeed != 1 {
 					c := best.Clone()
@@ -207,11 +234,17 @@ func Shrink(t *testing.T, P Property, p *Plan, v *Violation) *Plan {
 		}
 		// Move cut / read-error offsets towards the start of their class.
 		for fi := range best.Faults {
+			if expired() {
+				break
+			}
 			f := best.Faults[fi]
 			if f.Kind != FaultCut && f.Kind != FaultReadError {
 				continue
 			}
 			for _, cand := range []int{0, 8, f.Offset / 2, f.Offset - 1} {
+				if expired() {
+					break
+				}
 				if cand < 0 || cand >= best.Faults[fi].Offset {
 					continue
 				}
